@@ -90,7 +90,15 @@ pub fn vsct<T: Scalar>(w: &[T]) -> T {
 
 /// per-step windowed statistic
 pub fn seq_window<T: Scalar>(xs: &[T], n: usize, f: impl Fn(&[T]) -> T) -> Vec<Ex<T>> {
-    (0..xs.len()).map(|t| Ex::Val(f(win(&xs[..=t], n)))).collect()
+    (0..xs.len())
+        .map(|t| {
+            // one step of the batch definition: its intermediate values are given back
+            let m = T::mark();
+            let mut v = f(win(&xs[..=t], n));
+            T::release(m, &mut [&mut v]);
+            Ex::Val(v)
+        })
+        .collect()
 }
 
 /// Roc: 100 (x_t - x_{t-N}) / x_{t-N}; base = first value while fewer than N+1 values exist;
@@ -136,12 +144,11 @@ pub fn seq_rsi<T: Scalar>(xs: &[T], n: usize) -> Vec<Ex<T>> {
             if t + 1 < n {
                 return Ex::Nothing;
             }
+            let m = T::mark();
             let (g, l) = gains_losses(xs, t, n);
-            if l == T::zero() {
-                Ex::Val(T::of(100.0))
-            } else {
-                Ex::Val(T::of(100.0) * g / (g + l))
-            }
+            let mut v = if l == T::zero() { T::of(100.0) } else { T::of(100.0) * g / (g + l) };
+            T::release(m, &mut [&mut v]);
+            Ex::Val(v)
         })
         .collect()
 }
@@ -152,9 +159,14 @@ pub fn seq_myrsi<T: Scalar>(xs: &[T], n: usize) -> Vec<Ex<T>> {
     let mut out = Vec::with_capacity(xs.len());
     let mut held: Option<T> = None;
     for t in 0..xs.len() {
+        let m = T::mark();
         let (g, l) = gains_losses(xs, t, n);
         if g + l != T::zero() {
-            held = Some((g - l) / (g + l));
+            let mut v = (g - l) / (g + l);
+            T::release(m, &mut [&mut v]);
+            held = Some(v);
+        } else {
+            T::release(m, &mut []);
         }
         if t + 1 < n {
             out.push(Ex::Nothing);
